@@ -26,7 +26,8 @@ func init() {
 		ruleORD7b(w, r)
 		ruleORD1b(w, r)
 		ruleCDC5(w, r)
-		ruleCDC6(w, r) // a torn first frame is repaired, not a reason to refuse start-up
+		ruleCDC6(w, r)  // a torn first frame is repaired, not a reason to refuse start-up
+		ruleORD2c(w, r) // the older snapshot is retired only once the compacted log is in place
 	})
 	register("C14", "no acknowledged write lost to snapshot/compaction/shutdown", func(w *World, r *Report) {
 		ruleORD1(w, r)
@@ -46,6 +47,9 @@ func init() {
 	register("C05", "a rejected operation changes nothing, now or after restart", func(w *World, r *Report) {
 		ruleJRN3(w, r)
 		ruleSIB5(w, r) // a rejected batch must not leave part of itself behind
+		ruleCDC8(w, r) // a record the live engine journaled before rejecting the request must be inert on replay
+		ruleORDvalidate(w, r)
+		ruleEFFcomposite(w, r)
 	})
 	register("C01", "clean restart reproduces the pre-shutdown state", func(w *World, r *Report) {
 		ruleJRN12(w, r, nil)
@@ -70,6 +74,8 @@ func init() {
 		ruleSIBviews(w, r)    // graph-scoped search reads the reverse view: both views must agree
 		ruleGRDdupcheck(w, r) // no duplicates: one live node per external id
 		ruleORDdel(w, r)      // a deleted vector takes its secondary-index entries with it (text/filter hits)
+		ruleCDC8(w, r)        // … and stays deleted across a restart (tombstones reach snapshot-restored indexes)
+		ruleGRDdescent(w, r)  // live vectors stay findable when the top layer holds only tombstones
 	})
 }
 
@@ -92,9 +98,10 @@ func init() {
 		ruleGRDtime(w, r)
 	})
 	register("C11", "graph queries compute exact bounded reachability and shortest paths", func(w *World, r *Report) {
-		ruleGRDbfs(w, r, []bfsSpec{{"pkg/engine", "Engine.resolveGraphFilter", true}, {"pkg/engine", "Engine.VExtractSubgraph", true}, {"pkg/engine", "Engine.FindPath", false}}, "GRD-bfs")
+		ruleGRDbfs(w, r, []bfsSpec{{"pkg/engine", "Engine.resolveGraphFilter", 5}, {"pkg/engine", "Engine.VExtractSubgraph", 5}, {"pkg/engine", "Engine.FindPath", 0}}, "GRD-bfs")
 		ruleGRDpath(w, r)
 		ruleGRDtime(w, r)
+		ruleSIBviews(w, r) // the backward frontier and incoming scope read the reverse view: it must mirror the forward one
 	})
 	register("C12", "deleting a node leaves no live edge to or from it", func(w *World, r *Report) {
 		ruleSIB4(w, r)
@@ -111,6 +118,8 @@ func init() {
 		ruleLCK6(w, r)
 		ruleLCK7(w, r, lr)
 		ruleLCK8(w, r)
+		ruleLCK8b(w, r, lr)
+		ruleLCK9(w, r, lr)
 		ruleGRDdupcheck(w, r)
 		ruleORD8b(w, r)
 		ruleGRDclosed(w, r, lr)
@@ -128,7 +137,10 @@ func init() {
 		lr := w.lockAnalysis()
 		ruleGRDrmw(w, r, lr)
 		ruleLCK8(w, r) // an acknowledged insert must not vanish when the node array grows
+		ruleLCK8b(w, r, lr)
 		ruleGRDdupcheck(w, r)
+		ruleORDvalidate(w, r) // a rejected compression leaves the index readable
+		ruleGRDtrained(w, r)  // a stored int8 vector is what was added, not zeros from an untrained quantizer
 	})
 }
 
@@ -169,6 +181,7 @@ func init() {
 		ruleWEB7(w, r)
 		ruleWEB8(w, r)
 		ruleGRDkernel(w, r) // wrong-dimension queries must come back as errors, not BLAS/index panics
+		ruleCDC8(w, r)      // a request answered 4xx after its record was journaled must stay without effect on replay
 	})
 }
 
@@ -181,8 +194,11 @@ func init() {
 		ruleGRDown(w, r)
 		ruleGRDownvec(w, r)
 		ruleGRDslot(w, r)
+		ruleGRDtrained(w, r)
+		ruleGRDtrainfull(w, r)
 		lr := w.lockAnalysis()
 		ruleGRDclosed(w, r, lr)
+		ruleLCK8b(w, r, lr) // an int8 norm must not be lost to a concurrent growth of the norm array
 		ruleLCK5f(w, r, lr, func(g string) bool {
 			return strings.HasPrefix(g, "mmap.VectorArena.") || strings.HasPrefix(g, "distance.Quantizer.") || g == "hnsw.Index.activeMu"
 		})
@@ -210,6 +226,7 @@ func init() {
 		ruleTBLstop(w, r)
 		ruleEFFdet(w, r)
 		ruleGRDslice(w, r)
+		ruleGRDverbatim(w, r)
 	})
 }
 
@@ -221,5 +238,8 @@ func init() {
 		ruleGRDtraverse(w, r)
 		ruleGRDelect(w, r)
 		ruleGRDsmallgraph(w, r)
+		ruleGRDrelink(w, r)
+		ruleGRDquerynorm(w, r)
+		ruleGRDdescent(w, r)
 	})
 }
